@@ -10,6 +10,7 @@ import (
 
 	"github.com/LiskHQ/lisk-engine/pkg/blockchain"
 	"github.com/LiskHQ/lisk-engine/pkg/codec"
+	"github.com/LiskHQ/lisk-engine/pkg/consensus"
 	"github.com/LiskHQ/lisk-engine/pkg/consensus/certificate"
 	"github.com/LiskHQ/lisk-engine/pkg/consensus/liskbft"
 	"github.com/LiskHQ/lisk-engine/pkg/crypto"
@@ -429,6 +430,12 @@ func checkPool(k *mon.Case, n *node.Node, where string) int {
 			continue
 		}
 		vals, _ := v.validatorsAt(sc.Height())
+		if vals == nil {
+			// parameters of that height were pruned from the BFT store meanwhile: the commit
+			// was checked against them when it entered; it cannot be audited any more
+			k.Count("pool_commits_unjudged_params_pruned", 1)
+			continue
+		}
 		var signer *valAt
 		for i := range vals {
 			if bytes.Equal(vals[i].v.Address, sc.ValidatorAddress()) {
@@ -531,6 +538,7 @@ func probePool(k *mon.Case, r *rand.Rand, n *node.Node) {
 	}
 	// (2) internal path: Certify for some validators over (from, to]
 	fin := n.Finalized()
+	certifiedBy := map[int]bool{} // the node calls Certify once per finality raise and validator
 	if fin >= 1 {
 		vals, _ := v.validatorsAt(fin)
 		for _, va := range vals {
@@ -539,6 +547,7 @@ func probePool(k *mon.Case, r *rand.Rand, n *node.Node) {
 				if fin > 3 {
 					from = fin - 1 - uint32(r.Intn(3))
 				}
+				certifiedBy[va.v.Index] = true
 				if err := n.Exec.Certify(from, fin, va.v.Address, va.v.BLS.PrivateKey); err != nil {
 					k.Count("certify_errors", 1)
 				} else {
@@ -547,6 +556,57 @@ func probePool(k *mon.Case, r *rand.Rand, n *node.Node) {
 			}
 		}
 		checkPool(k, n, "after-certify")
+	}
+	// (2b) targeted: valid commits of a random signer subset for one certifiable height,
+	// through the gossip validator when the height is inside the accepted range, else Certify
+	hi := v.precommitted
+	if nc := v.nextChange(); nc != 0 && nc-1 < hi {
+		hi = nc - 1
+	}
+	if hi > v.certified {
+		h := v.certified + 1 + uint32(r.Intn(int(hi-v.certified)))
+		if r.Intn(2) == 0 {
+			h = hi
+		}
+		hdr, err := n.Chain.DataAccess().GetBlockHeaderByHeight(h)
+		vals, thr := v.validatorsAt(h)
+		if err == nil && len(vals) > 0 {
+			mask := 1 + r.Intn((1<<uint(len(vals)))-1)
+			if r.Intn(2) == 0 {
+				mask = (1 << uint(len(vals))) - 1
+				// drop random signers while the weight still reaches the threshold
+				for _, i := range r.Perm(len(vals)) {
+					var w uint64
+					for j, va := range vals {
+						if mask&(1<<uint(j)) != 0 && j != i {
+							w += va.weight
+						}
+					}
+					if w >= thr {
+						mask &^= 1 << uint(i)
+					}
+				}
+			}
+			var cs []*certificate.SingleCommit
+			for i, va := range vals {
+				if mask&(1<<uint(i)) != 0 {
+					cs = append(cs, certificate.NewSingleCommit(hdr, va.v.Address, chainID, va.v.BLS.PrivateKey))
+				}
+			}
+			before := n.Exec.VerifCertificatePool().Size()
+			n.Exec.VerifSingleCommitValidator(context.Background(), p2p.NewMessage(encodeCommits(cs)))
+			if n.Exec.VerifCertificatePool().Size() == before && h == v.precommitted {
+				// outside the gossip acceptance range (e.g. first 100 heights): use the internal path
+				for i, va := range vals {
+					if mask&(1<<uint(i)) != 0 && !certifiedBy[va.v.Index] {
+						n.Exec.Certify(h-1, h, va.v.Address, va.v.BLS.PrivateKey) //nolint:errcheck
+					}
+				}
+			}
+			k.Count("targeted_rounds", 1)
+			k.Count("targeted_commits_in_pool", n.Exec.VerifCertificatePool().Size()-before)
+			checkPool(k, n, "after-targeted")
+		}
 	}
 	// (3) self-consistency: what the node assembles must pass its own verification
 	k.Eval(1)
@@ -568,7 +628,12 @@ func probePool(k *mon.Case, r *rand.Rand, n *node.Node) {
 		k.Violation("assemble:own-aggregate-rejected", "the aggregate commit assembled from the node's own pool is rejected by the node's own verification: "+verr.Error(),
 			map[string]any{"height": ac.Height, "bits": fmt.Sprintf("%x", []byte(ac.AggregationBits)), "validators": len(vals), "signers": signers, "threshold": thr, "certified": v.certified, "precommitted": v.precommitted, "next_change": v.nextChange()})
 	} else {
-		k.Nontrivial(fmt.Sprintf("assembled|empty%v|h-rel%v", ac.Empty(), ac.Height > v.certified))
+		signers := 0
+		for _, b := range ac.AggregationBits {
+			signers += popcount(int(b))
+		}
+		vals, _ := v.validatorsAt(ac.Height)
+		k.Nontrivial(fmt.Sprintf("assembled|empty%v|n%d|signers%d", ac.Empty(), len(vals), signers))
 		// and a block carrying it must be accepted
 		b, err := n.NextBlock(node.BlockOpts{AggregateCommit: ac})
 		if err == nil {
@@ -579,6 +644,93 @@ func probePool(k *mon.Case, r *rand.Rand, n *node.Node) {
 			}
 		}
 	}
+}
+
+// certifyLoop plays the whole certification loop the way a node hosting every validator does:
+// after each finality raise (EventBlockFinalize: Original -> Next) Certify(Original, Next) is
+// called once per validator, and every block carries GetAggregateCommit(); each assembled
+// commit must pass the node's own verification and the block carrying it must be accepted.
+func certifyLoop(k *mon.Case, r *rand.Rand, n *node.Node, blocks int) {
+	n.TakeEvents()
+	for i := 0; i < blocks; i++ {
+		k.Eval(1)
+		ac, err := n.Exec.GetAggregateCommit()
+		if err != nil {
+			k.Violation("assemble:error", "GetAggregateCommit failed: "+err.Error(), nil)
+			return
+		}
+		v := newView(n)
+		if verr := v.verify(ac); verr != nil {
+			vals, thr := v.validatorsAt(ac.Height)
+			g, ng := n.Exec.VerifCertificatePool().VerifAll()
+			dups := 0
+			seen := map[string]bool{}
+			for _, sc := range append(g, ng...) {
+				key := fmt.Sprintf("%d|%x", sc.Height(), []byte(sc.ValidatorAddress()))
+				if seen[key] {
+					dups++
+				}
+				seen[key] = true
+			}
+			k.Violation("assemble:own-aggregate-rejected", "the aggregate commit assembled from the node's own pool is rejected by the node's own verification: "+verr.Error(),
+				map[string]any{"height": ac.Height, "bits": fmt.Sprintf("%x", []byte(ac.AggregationBits)), "validators": len(vals), "threshold": thr, "certified": v.certified, "precommitted": v.precommitted, "next_change": v.nextChange(), "duplicate_commits_in_pool": dups, "loop_block": i})
+			return
+		}
+		if !ac.Empty() {
+			k.Count("loop_non_empty_commits", 1)
+		}
+		o := node.BlockOpts{AggregateCommit: ac}
+		if r.Intn(9) == 0 {
+			o.Directive = &node.Directive{Change: changeKeepingLiveness(r, n), Salt: i}
+		}
+		var b *blockchain.Block
+		for try := 0; try < 8; try++ {
+			b, err = n.NextBlock(o)
+			if err != node.ErrWouldContradict {
+				break
+			}
+			o.SlotsAhead++
+		}
+		if err != nil {
+			k.Inconclusive("build")
+			return
+		}
+		if err := n.Apply(b); err != nil {
+			k.Violation("assemble:block-with-own-aggregate-rejected", "a valid block carrying the node's own aggregate commit is rejected: "+err.Error(), map[string]any{"height": ac.Height, "block": node.DescribeBlock(b)})
+			return
+		}
+		k.Count("loop_blocks", 1)
+		for _, e := range n.TakeEvents() {
+			fm, ok := e.Msg.(*consensus.EventBlockFinalizeMessage)
+			if !ok {
+				continue
+			}
+			k.Count("loop_finality_raises", 1)
+			st := n.Exec.VerifStateStore()
+			seen := map[int]bool{}
+			for h := fm.Original + 1; h <= fm.Next; h++ {
+				p, err := n.Exec.GetBFTParameters(st, h)
+				if err != nil {
+					continue
+				}
+				for _, pv := range p.Validators() {
+					val := n.ValidatorByAddress(pv.Address())
+					if val != nil && !seen[val.Index] {
+						seen[val.Index] = true
+						if r.Intn(5) != 0 { // most validators are online
+							n.Exec.Certify(fm.Original, fm.Next, val.Address, val.BLS.PrivateKey) //nolint:errcheck
+						}
+					}
+				}
+			}
+			checkPool(k, n, "after-certify-on-raise")
+		}
+		if i%7 == 6 {
+			n.Exec.VerifBroadcastCertificate() //nolint:errcheck // cleanup + select (Publish fails: connection not started)
+		}
+	}
+	_, _, c := n.Heights()
+	k.Nontrivial(fmt.Sprintf("loop|certified-reached-%d", c/5))
 }
 
 func main() {
@@ -622,6 +774,18 @@ func main() {
 			k.Sample(map[string]any{"validators": nv, "weights": g.Weights, "cert_threshold": g.Cert, "chain": n.Tip().Header.Height, "certified": v.certified, "precommitted": v.precommitted, "next_change": v.nextChange(), "param_entries": len(v.params)})
 			probeSoundness(k, r, n)
 			probePool(k, r, n)
+		})
+		c.Cases("loop", c.N(32, 800), func(k *mon.Case) {
+			r := k.R
+			g := changeKeepingLiveness(r, &node.Node{Cfg: node.Config{BatchSize: 6}, Universe: node.Universe(6)})
+			n, err := node.New(node.Config{Genesis: g, Universe: 6, BatchSize: 6, MaxBlockCache: 200})
+			if err != nil {
+				k.Inconclusive("node-init")
+				return
+			}
+			defer n.Close()
+			certifyLoop(k, r, n, 30+r.Intn(40))
+			k.Sample(map[string]any{"validators": len(g.Members), "weights": g.Weights, "cert_threshold": g.Cert, "tip": n.Tip().Header.Height})
 		})
 	})
 }
